@@ -64,7 +64,9 @@ def problem_text(task, listed_atoms, fluent_tokens):
             f"  (:init {init})\n  (:goal (and {goal})))\n")
 
 
-def parse_text(text, symbolic):
+def parse_text(text, symbolic, then_other=None):
+    """then_other: a second problem text parsed afterwards with the SAME Domain object (other values for the same fluents, no
+    facts): the problem parsed first must still say what ITS text says"""
     from pddl_plus_parser.lisp_parsers import ProblemParser
     import pddl_plus_parser.lisp_parsers.problem_parser as ppm
     domain = lib.parse_domain(DOMAIN_TEXT)
@@ -74,15 +76,30 @@ def parse_text(text, symbolic):
         if symbolic:
             ppm.float = core.sym_float
         try:
-            return ProblemParser(path, domain).parse_problem()
+            first = ProblemParser(path, domain).parse_problem()
         finally:
             if symbolic:
                 del ppm.float
+        if then_other is not None:
+            path.write_text(then_other)
+            try:
+                ProblemParser(path, domain).parse_problem()
+            except Exception:  # noqa -- the second problem is not judged
+                pass
+        return first
     finally:
         try:
             os.unlink(path)
         except OSError:
             pass
+
+
+def _other_text(task):
+    """another problem of the same domain: the same fluents with other values (tasks with an even number of fluents only, so that
+    both histories - with and without a later parse - are exercised)"""
+    if len(task["fluents"]) % 2:
+        return None
+    return problem_text(dict(task, goal=[], name="later"), [], {f: "7.5" for f in task["fluents"]})
 
 
 def run_faithful(task):
@@ -97,7 +114,7 @@ def run_faithful(task):
             truth = {a: bool(SymBool(v)) for a, v in va.items()}  # which facts the text lists: a solver-decided fork each
             values = {f: SymReal(v) for f, v in xf.items()}
             text = problem_text(task, [a for a, t in truth.items() if t], {f: v.tag() for f, v in values.items()})
-            return truth, values, parse_text(text, symbolic=True)
+            return truth, values, parse_text(text, symbolic=True, then_other=_other_text(task))
 
         def on_path(ctx: Ctx, pr):
             if pr.kind == "exc":
@@ -142,7 +159,7 @@ def concrete_faithful(task, atoms, fls):
     text = problem_text(task, [a for a, t in atoms.items() if t], {f: repr(v) for f, v in fls.items()})
     out = {"text": text}
     try:
-        back = parse_text(text, symbolic=False)
+        back = parse_text(text, symbolic=False, then_other=_other_text(task))
     except Exception as e:  # noqa
         out["observed"] = f"{type(e).__name__}: {e}"
         out["problems"] = [f"a valid problem text was rejected: {type(e).__name__}: {e}"]
